@@ -71,6 +71,8 @@ def make_scenarios(ctx, count, per):
         # a getter reports failure with any non-zero value (the core's convention is 0 = success)
         failrc = rng.choice([-1, -1, 1, 2, -2, 255, 0x7fffffff, -0x80000000])
         s.add("OPT failrc=%d" % failrc)
+        if i % 3 == 1:
+            s.add("OPT sloppy=1")         # text getters that fill their whole window and report the string's length
         tuples = []
         for _ in range(per):
             t = rand_tuple(rng, idx)
